@@ -17,8 +17,8 @@ From RP2V Require Import Base.Prelude Base.Time Base.Dec Base.Sorting Base.Assoc
   Model.Matcher Model.Pipeline Model.Parser Model.Render Model.TableOrderSpec Model.Computed Model.ComputedSpec Model.TotalSpec
   Model.Grid Model.ReportInput Model.MainRun Model.RunCompose Model.ConfigModel Model.EndToEnd.
 From RP2V Require Import Proofs.ParserLookup Proofs.ParserRows Proofs.ParserSheet Proofs.ParserSpec Proofs.ParserExample
-  Proofs.FaultsCtor Proofs.PipelineWf Proofs.ComputeTotal Proofs.ComputeTotalExamples Proofs.FromRowsExamples Proofs.FullReportWitness
-  Proofs.RunLemmas Proofs.C16Proofs Proofs.RunCompose Proofs.RunComposeExamples Proofs.EndToEnd.
+  Proofs.FaultsCtor Proofs.PipelineWf Proofs.ComputeTotal Proofs.NumberingExamples Proofs.ComputeTotalExamples Proofs.FromRowsExamples Proofs.FullReportWitness
+  Proofs.RunLemmas Proofs.C16Proofs Proofs.RunCompose Proofs.RunComposeExamples Proofs.MatcherProps Proofs.EndToEnd Proofs.EndToEndAnyRows.
 Import ListNotations.
 Open Scope Z_scope.
 
@@ -370,4 +370,69 @@ Proof.
   destruct (e2e_success_of_computed US opts0 ok_secs ok_ts fee_workbook (wv 0) 0 ok_s [s_BBB; s_AAA] fee_ps fee_i FA
               (proj1 run_total_example) (or_introl eq_refl) (Forall_nil _) HI HC RH) as (l & R & DL & HG & _).
   exists l. auto.
+Qed.
+
+(** ... and the same workbook meets every hypothesis of [E2E_success_any_rows] (the theorem that covers crypto-fee rows) *)
+Lemma parsed_rows_ok_check cfg asset counter blocks p sched to_day t evs fs :
+  Z.of_nat (length (pc_holders cfg)) <= 100000 -> counter <= 0 -> wf_blocks cfg asset 1 blocks ->
+  expected cfg counter blocks = Ok p -> pa_ins p <> [] ->
+  txs_of_parsed p = Ok t -> taxable_events t = Ok evs -> fractions_of gen_always_repush sched t = Ok fs ->
+  forallb (fun x => negb (ttype_eqb (i_type x) STAKING) || (0 <? i_crypto_in x)) (pa_ins p) = true ->
+  same_year_b evs = true -> sched_covers_b sched evs = true -> NoDup (map fst sched) ->
+  holders_ok_b t = true -> (exists bl, balances false to_day [] [] t = Ok bl) ->
+  parsed_rows_ok sched false to_day p.
+Proof.
+  intros HL HC W E NE T HE HF ST SY SC ND HO HB.
+  assert (RS : forall x, In x (pa_ins p) -> i_type x = STAKING -> 0 < i_crypto_in x).
+  { intros x Hx Hty. rewrite forallb_forall in ST. specialize (ST x Hx). rewrite Hty in ST. cbn in ST. lia. }
+  constructor.
+  - exact RS.
+  - intros t' evs' T' HE'. rewrite T in T'. injection T' as <-. rewrite HE in HE'. injection HE' as <-.
+    split; [exact (same_year_check evs SY)|exact (sched_covers_check sched evs SC)].
+  - intros t' evs' T' HE'. rewrite T in T'. injection T' as <-. rewrite HE in HE'. injection HE' as <-.
+    destruct (expected_sheet_sets cfg HL asset counter blocks p HC W E NE) as (_ & t'' & SS).
+    pose proof (ss_txs _ _ SS) as T''. rewrite T in T''. injection T'' as <-.
+    pose proof (sheet_sets_wf p t sched evs SS HE RS (same_year_check evs SY) (sched_covers_check sched evs SC) ND) as WF.
+    intros Hex. apply (m_fails_iff _ _ _ WF) in Hex. unfold fractions_of in HF. rewrite HE in HF. rewrite HF in Hex. discriminate Hex.
+  - intros t' T'. rewrite T in T'. injection T' as <-. right. exact (never_overdrawn_check _ _ (holders_ok_check _ HO) HB).
+Qed.
+
+Definition fee_p_AAA : parsed := Eval vm_compute in match fee_ps with [_; (_, p)] => p | _ => p_dflt end.
+Definition fee_t_AAA : txs := Eval vm_compute in match txs_of_parsed fee_p_AAA with Ok t => t | Err _ => t_dflt end.
+Definition fee_evs_AAA : list txn := Eval vm_compute in match taxable_events fee_t_AAA with Ok l => l | Err _ => [] end.
+Definition fee_fs_AAA : list fraction :=
+  Eval vm_compute in match fractions_of gen_always_repush ok_sched fee_t_AAA with Ok fs => fs | Err _ => [] end.
+Definition evs_BBB : list txn := Eval vm_compute in match taxable_events t_BBB with Ok l => l | Err _ => [] end.
+
+Example e2e_any_rows_nonvacuous :
+  (forall a p, In (a, p) fee_ps -> parsed_rows_ok ok_sched (o_neg opts0) (o_to opts0) p) /\
+  map (fun f => (f_ev f, f_lot f)) fee_fs_AAA = [(-1, Some 8); (4, Some 8)] /\
+  exists i l, e2e_input US opts0 0 ok_s fee_ps = Some i /\
+              rp2_model US opts0 ok_secs ok_ts fee_workbook (wv 0) 0 = (0, l) /\ map fst l = discovery US.
+Proof.
+  assert (ROWS : forall a p, In (a, p) fee_ps -> parsed_rows_ok ok_sched (o_neg opts0) (o_to opts0) p).
+  { intros a p H. unfold fee_ps in H. destruct H as [[= <- <-]|[[= <- <-]|[]]].
+    - apply (parsed_rows_ok_check ok_cfg s_BBB 0 blocks_BBB _ ok_sched (o_to opts0) t_BBB evs_BBB fs_BBB);
+        try (vm_compute; reflexivity); try (vm_compute; discriminate); try exact wf_BBB.
+      + constructor; [intros []|constructor].
+      + eexists. vm_compute. reflexivity.
+    - apply (parsed_rows_ok_check ok_cfg s_AAA 0 blocks_AAA_fee _ ok_sched (o_to opts0) fee_t_AAA fee_evs_AAA fee_fs_AAA);
+        try (vm_compute; reflexivity); try (vm_compute; discriminate); try exact wf_AAA_fee.
+      + constructor; [intros []|constructor].
+      + eexists. vm_compute. reflexivity. }
+  split; [exact ROWS|]. split; [vm_compute; reflexivity|].
+  destruct (E2E_success_any_rows US opts0 ok_secs ok_ts fee_workbook (wv 0) 0 ok_s fee_sheet ok_trailing fee_ps ok_valid
+              (proj1 run_total_example)) as (i & l & HI & RM & DL & _).
+  - left. reflexivity.
+  - constructor.
+  - constructor.
+  - intros a H. discriminate H.
+  - vm_compute. discriminate.
+  - exact fee_rendered.
+  - vm_compute. reflexivity.
+  - intros a p H. vm_compute in H. destruct H as [[= <- <-]|[[= <- <-]|[]]]; discriminate.
+  - intros sched a p S Hin. rewrite ok_sched_eq in S. injection S as <-. exact (ROWS a p Hin).
+  - intros i HI. assert (HI' : e2e_input US opts0 0 ok_s fee_ps = Some fee_i) by (vm_compute; reflexivity).
+    rewrite HI' in HI. injection HI as <-. apply reports_ok_b_sound. vm_compute. reflexivity.
+  - exists i, l. auto.
 Qed.
